@@ -371,7 +371,7 @@ def shrink_bucket(mod, bucket, info, budget):
 
     def cond(case):
         if time.time() > t_end:
-            return False
+            raise _BudgetStop()   # leave Hypothesis' shrinker at the deadline (it would otherwise keep calling us)
         try:
             r = execute(sub, case, st, collect=False)
         except HarnessError:
@@ -397,7 +397,7 @@ def safe_name(s):
 
 
 def write_replay(pid, bucket, case, detail, subname):
-    d = os.path.join(HERE, "replays", pid)
+    d = os.path.join(os.environ.get("VERIF_REPLAY_DIR") or os.path.join(HERE, "replays"), pid)
     os.makedirs(d, exist_ok=True)
     path = os.path.join(d, safe_name(bucket) + ".json")
     with open(path, "w") as f:
